@@ -65,6 +65,16 @@ func coreC05(tier string) []RunSpec {
 			}
 		}
 	}
+	// the client repeats its melt request while the payment is in flight, then the scripted answers
+	for _, pay := range []int{1, 3} { // pay call answers pending / transport error
+		for st := 1; st <= 5; st++ {
+			for final := 0; final < 2; final++ {
+				for ch := 0; ch < 2; ch++ {
+					out = append(out, RunSpec{Profile: "core:remelt-while-locked", Params: map[string]int{"remelt": 1, "pay": pay, "final": final, "ch": ch, "mpp": 0, "n": 1, "s0": st, "k": st + ch}})
+				}
+			}
+		}
+	}
 	// a swap of the melt's inputs racing the melt request, for each pay answer
 	for pay := 0; pay < 4; pay++ {
 		for k := 0; k < 12; k++ {
@@ -316,6 +326,26 @@ func runC05(rc *RunCtx) {
 	}
 	cur := got
 	rc.S.Probe("c05_after_melt_" + c5name(cur))
+	// a second melt request on the quote while its payment may still succeed (a client that retries):
+	// it must be refused, and it must not get in the way of the polls that follow
+	if cur == c5Locked && (rc.P("remelt", 0) == 1 || (random && T.Chance("remelt", 1, 3))) {
+		rc.S.BeginEpisode()
+		rc.S.Run1("remelt", W.Ext, func() {
+			ins2 := m.TakeFor("A", q.Amount+q.Reserve)
+			sameIns := ins2 == nil || rc.P("k", T.Choose("remelt.same", 2))%2 == 1
+			if sameIns {
+				ins2 = ins
+			}
+			r := m.User.Melt("A", q.ID, ins2)
+			if r != nil && r.OK() {
+				fail("remelt_accepted", "a second melt request on the quote was answered %s while the first payment may still succeed", RespState(r))
+				if !sameIns {
+					m.User.remove("A", ins2)
+				}
+			}
+		})
+		rc.S.Probe("c05_remelt_while_locked")
+	}
 	checkPreimage := func(r *Resp, where string) {
 		if pre, _ := r.Body["payment_preimage"].(string); pre != inv.Preimage {
 			fail("preimage", "%s reports PAID with preimage %q, the payment's preimage is %q", where, short(pre), short(inv.Preimage))
